@@ -1089,6 +1089,7 @@ LOOP:
 				if nl >= 0 && l.src[nl] != '\n' {
 					return l.errorf(bomErrorMsg)
 				}
+				comment := l.src[:p]
 				l.src = l.src[p+2:]
 				if nl >= 0 {
 					if endLineAsSemicolon {
@@ -1096,6 +1097,13 @@ LOOP:
 						endLineAsSemicolon = false
 					}
 					l.newline()
+				} else {
+					l.column += 4
+					for _, c := range comment {
+						if isStartChar(c) {
+							l.column++
+						}
+					}
 				}
 				continue LOOP
 			}
